@@ -52,6 +52,26 @@ def check_config(ctx, F, tag):
         c17.check_config(Relabel(ctx, {"C17.R8.rounding-helper-closed-form": ("C12.R3.buffer-rounding-helper",
                                                                                lambda k: any(x in k for x in ("round_up_to_word_bits", "bits_to_words", "words_to_bits")))}),
                          F, tag, "native" if tag == "" else "portable")
+    # the writer's extend() pushes every item as it is (push truncates it to the width, as the in-memory vector does): a value
+    # passed through min / max / clamp first is another value
+    for nm in sorted(F.bodies):
+        if nm.startswith("<int_vector::IntVectorWriter as std::iter::Extend<") and nm.endswith(">::extend"):
+            eb = F.body(nm)
+            pu = [(bi, t) for bi, t in eb.calls() if callee_name(t).endswith("Push>::push")]
+            ok = None
+            detail = "%d push calls" % len(pu)
+            if pu:
+                ok = True
+                for bi, t in pu:
+                    a = core(eb.term_of_operand(t["args"][1]))
+                    item = a[0] == "field" and any(x[0] == "call" and x[1].split("::")[-1] == "next" for x in subterms(a))
+                    conv = a[0] == "call" and a[1].split("::")[-1] in ("from", "into") and len(a[2]) == 1
+                    if item or conv:
+                        continue
+                    altered = a[0] == "call" and a[1].split("::")[-1] in ("min", "max", "clamp", "saturating_sub", "saturating_add", "wrapping_add", "wrapping_sub") or a[0] == "bin"
+                    ok = False if altered else (None if ok else ok)
+                    detail += "; pushed: %s" % tstr(a)[:70]
+            ctx.ob("C12.R2.extend-pushes-the-item", nm + tag, loc(eb.raw["span"]), ok, "term-provenance", detail, positive=ok is False)
     impls = {im["self"]: im for im in serfmt.serialize_impls(F)}
     # ---------------- R1 RawVectorWriter::write_header vs RawVector::serialize_header
     wh = F.body(RW + "::write_header")
@@ -177,6 +197,12 @@ def check_config(ctx, F, tag):
         if creates and not opens:
             ctx.ob("C12.R2.file-opened-truncating", ctor + tag, loc(creates[0][1]["sp"]), True, "call-chain", "File::create (create + write + truncate)")
             continue
+        excl = [(bi, t) for bi, t in b.calls() if callee_name(t) in ("std::fs::File::create_new",)]
+        if excl and not opens:
+            # O_EXCL: an existing file at the path is an error, where the writer is documented to overwrite it -- no file is left at all
+            ctx.ob("C12.R2.file-opened-truncating", ctor + tag, loc(excl[0][1]["sp"]), False, "call-chain",
+                   "File::create_new refuses a path at which a file exists (the writer overwrites: create + write + truncate)", positive=True)
+            continue
         if len(opens) != 1:
             ctx.ob("C12.R2.file-opened-truncating", ctor + tag, loc(b.raw["span"]), None, "call-chain", "%d OpenOptions::open calls" % len(opens))
             continue
@@ -187,7 +213,7 @@ def check_config(ctx, F, tag):
             if cn.startswith("std::fs::OpenOptions::") and cn.split("::")[-1] in ("create", "write", "truncate", "append", "create_new") and len(t["args"]) == 2:
                 setters[cn.split("::")[-1]] = core(b.term_of_operand(t["args"][1]))
         on = lambda k: setters.get(k, ("const", 0))[:2] == ("const", 1)
-        ok = on("write") and (on("create") or on("create_new")) and (on("truncate") or on("create_new")) and not on("append")
+        ok = on("write") and on("create") and on("truncate") and not on("append") and not on("create_new")
         ctx.ob("C12.R2.file-opened-truncating", ctor + tag, loc(opens[0][1]["sp"]), ok, "call-chain",
                "OpenOptions: %s (needed: write, create, truncate; not append)" % {k: tstr(v) for k, v in sorted(setters.items())})
     # ---------------- R2d the writers' own stores into the buffer carry the value only masked to the item width (shared with C05.R2)
